@@ -567,20 +567,20 @@ CHECKS["C19"] = {
     "parallel": 8,
     "replay_tries": 12,
     "quick": [
-        {"harness": "VerifC19Provide", "params": {"np": 2, "nf": [0, 1], "perm": [0, 2], "code": [502, 404], "cancel": 0, "best": -1, "prior": 0}, "redirects": _C19R},
-        {"harness": "VerifC19Provide", "params": {"np": 3, "nf": 2, "perm": [0, 3, 5], "code": 503, "cancel": 0, "best": -1, "prior": 0}, "redirects": _C19R},
-        {"harness": "VerifC19Provide", "params": {"np": 1, "nf": [2, 3], "perm": [0, 5], "code": 503, "cancel": 0, "best": -1, "prior": 0}, "redirects": _C19R},
-        {"harness": "VerifC19Provide", "params": {"np": [1, 2], "nf": [0, 2], "perm": 2, "code": 503, "cancel": 1, "best": -1, "prior": 0}, "redirects": _C19R},
+        {"harness": "VerifC19Provide", "params": {"np": 2, "nf": [0, 1], "perm": [0, 2], "code": [502, 404], "cancel": 0, "best": -1, "prior": 0, "aged": 0}, "redirects": _C19R},
+        {"harness": "VerifC19Provide", "params": {"np": 3, "nf": 2, "perm": [0, 3, 5], "code": 503, "cancel": 0, "best": -1, "prior": 0, "aged": 0}, "redirects": _C19R},
+        {"harness": "VerifC19Provide", "params": {"np": 1, "nf": [2, 3], "perm": [0, 5], "code": 503, "cancel": 0, "best": -1, "prior": 0, "aged": 0}, "redirects": _C19R},
+        {"harness": "VerifC19Provide", "params": {"np": [1, 2], "nf": [0, 2], "perm": 2, "code": 503, "cancel": 1, "best": -1, "prior": 0, "aged": 0}, "redirects": _C19R},
         # a selector that remembers primary 0 / 1 as the best node of earlier calls
-        {"harness": "VerifC19Provide", "params": {"np": [2, 3], "nf": [0, 1], "perm": [0, 2], "code": 503, "cancel": 0, "best": [0, 1], "prior": 0}, "redirects": _C19R},
+        {"harness": "VerifC19Provide", "params": {"np": [2, 3], "nf": [0, 1], "perm": [0, 2], "code": 503, "cancel": 0, "best": [0, 1], "prior": 0, "aged": 0}, "redirects": _C19R},
         # an earlier call on the same selector was served by a fallback (all primaries unavailable)
-        {"harness": "VerifC19Provide", "params": {"np": [1, 2], "nf": [1, 2], "perm": [0, 2], "code": 503, "cancel": 0, "best": -1, "prior": 1}, "redirects": _C19R},
+        {"harness": "VerifC19Provide", "params": {"np": [1, 2], "nf": [1, 2], "perm": [0, 2], "code": 503, "cancel": 0, "best": -1, "prior": 1, "aged": [0, 1]}, "redirects": _C19R},
     ],
     "thorough": [
-        {"harness": "VerifC19Provide", "params": {"np": [1, 2, 3], "nf": [0, 1, 2, 3], "perm": [0, 1, 2, 3, 4, 5], "code": [502, 503, 504, 404, 500], "cancel": 0, "best": -1, "prior": 0}, "redirects": _C19R},
-        {"harness": "VerifC19Provide", "params": {"np": [1, 2, 3], "nf": [0, 1, 2, 3], "perm": [0, 3, 5], "code": 503, "cancel": 1, "best": -1, "prior": 0}, "redirects": _C19R},
-        {"harness": "VerifC19Provide", "params": {"np": [2, 3], "nf": [0, 1, 2], "perm": [0, 1, 2, 3, 4, 5], "code": [503, 404], "cancel": 0, "best": [0, 1], "prior": 0}, "redirects": _C19R},
-        {"harness": "VerifC19Provide", "params": {"np": [1, 2, 3], "nf": [1, 2], "perm": [0, 2, 5], "code": [503, 404], "cancel": 0, "best": [-1, 0], "prior": 1}, "redirects": _C19R},
+        {"harness": "VerifC19Provide", "params": {"np": [1, 2, 3], "nf": [0, 1, 2, 3], "perm": [0, 1, 2, 3, 4, 5], "code": [502, 503, 504, 404, 500], "cancel": 0, "best": -1, "prior": 0, "aged": 0}, "redirects": _C19R},
+        {"harness": "VerifC19Provide", "params": {"np": [1, 2, 3], "nf": [0, 1, 2, 3], "perm": [0, 3, 5], "code": 503, "cancel": 1, "best": -1, "prior": 0, "aged": 0}, "redirects": _C19R},
+        {"harness": "VerifC19Provide", "params": {"np": [2, 3], "nf": [0, 1, 2], "perm": [0, 1, 2, 3, 4, 5], "code": [503, 404], "cancel": 0, "best": [0, 1], "prior": 0, "aged": 0}, "redirects": _C19R},
+        {"harness": "VerifC19Provide", "params": {"np": [1, 2, 3], "nf": [1, 2], "perm": [0, 2, 5], "code": [503, 404], "cancel": 0, "best": [-1, 0], "prior": 1, "aged": [0, 1]}, "redirects": _C19R},
     ],
     "bounds": {
         "quick": "provide-style calls: 1-3 primary and 0-3 fallback nodes; per-node outcome symbolic among success / plain error / timeout-class message / syncing / http gateway status / connection refused / the node's own request deadline (wrapped context.DeadlineExceeded) / hangs for ever (status code concrete per case); selected completion orders; worker count and fail-fast setting taken from the options provide() really passes to forkjoin.New; one scenario with the caller's context cancelled while requests are in flight (must return the context error without blocking); a node may also hang ignoring cancellation (the cancel function provide() defers must not wait for it); optionally the call goes through a bestSelector that remembers one primary as the best node of earlier calls; a hung node must not keep the call from returning another node's success (blocking VC on the result loop)",
